@@ -22,6 +22,19 @@ theorem c09_table_wrappers : wrapperOffenders table = [] := by decide +kernel
 /-- Every pair is a theorem of the engine model or has a disposition, and no disposition is stale. -/
 theorem c09_table_covered : uncovered table = [] := by decide +kernel
 
+/-- **After 872fea0 and 9ae719b**: these 15 types answer `StrictParse` by calling `Parse` — agreement by
+    construction (`c09_parseAny_eq_parse_all` is the same shape). -/
+theorem c09_table_via_parse : viaParseTypes table =
+    ["ZodArray", "ZodDiscriminatedUnion", "ZodEnum", "ZodIntersection", "ZodLazy", "ZodLiteral", "ZodMap", "ZodNever", "ZodNil",
+     "ZodObject", "ZodRecord", "ZodSet", "ZodTuple", "ZodUnion", "ZodXor"] := by decide +kernel
+
+/-- … and exactly these five types are still type-local (their pair is judged by the run; `ZodStringBool` is the
+    one with a finding): every other schema type's (`Parse`, `StrictParse`) agreement is a theorem — the bare
+    primitive pair with a checks-only validator, the bare complex pair, `StrictParse = Parse`, or promoted
+    from / forwarded to an embedded schema of one of these kinds. -/
+theorem c09_table_type_local : notByTheorem table = ["ZodBigInt", "ZodFile", "ZodFunction", "ZodStringBool", "ZodStruct"] := by
+  decide +kernel
+
 /-- The table is not vacuous: at least 50 schema types, six rows each. -/
 theorem c09_table_nonempty : 50 ≤ (Table.types table).length ∧ table.length = 6 * (Table.types table).length := by decide +kernel
 
